@@ -290,6 +290,131 @@ def job_qasm(a):
     return out
 
 
+class _Tok(str):
+    """a string whose content no Python-level operation of the code under contract may look at: every method of str raises.
+    C-level consumers that take it as an ARGUMENT (str.join, f-string formatting, +) still read it - those are content-uniform."""
+    __slots__ = ()
+
+
+def _raiser(nm):
+    def f(self, *a, **k):
+        raise AssertionError(f"the exporter inspected a qubit name (str.{nm})")
+    return f
+
+
+for _nm in ("__eq__", "__ne__", "__lt__", "__le__", "__gt__", "__ge__", "__hash__", "__len__", "__getitem__", "__iter__", "__contains__", "__add__", "__mod__",
+            "__mul__", "lower", "upper", "strip", "split", "replace", "startswith", "endswith", "find", "index", "count", "encode", "isdigit", "isidentifier",
+            "join", "format", "partition", "rpartition", "title", "capitalize", "casefold", "swapcase", "zfill", "ljust", "rjust", "center", "translate"):
+    setattr(_Tok, _nm, _raiser(_nm))
+
+
+class _Wire:
+    """a wire index nobody may compare, order, hash or do arithmetic on: the only thing the exporter can do is hand it to get_key_by_index"""
+    def __init__(self, i):
+        object.__setattr__(self, "_i", i)
+
+    def __repr__(self):
+        raise AssertionError("the exporter printed a wire index instead of the qubit's name")
+    __str__ = __format__ = __repr__
+
+
+for _nm in ("__eq__", "__ne__", "__lt__", "__le__", "__gt__", "__ge__", "__hash__", "__index__", "__int__", "__add__", "__radd__", "__sub__", "__rsub__", "__bool__"):
+    setattr(_Wire, _nm, _raiser("wire." + _nm))
+
+
+def job_qasm_param(a):
+    """QASM body line, PARAMETRIC in the wire indices and in the qubit names: the circuit handed to the real export_v2 / export_v3 is a
+    stand-in with the four members they read (name, num_qubits, gates, get_key_by_index); wires are opaque objects (any comparison, hash,
+    arithmetic or printing raises) and get_key_by_index - replaced by its contract, an uninterpreted injective function - returns name strings
+    whose every str method raises.  An export that succeeds can therefore not have depended on the VALUE of a wire or of a name, so the line
+    it printed is the line for every wire assignment and every naming.  Bounded only in the gate KINDS (every class of gates.py, enumerated)
+    and the length of the gate list (<= 3)."""
+    import inspect
+    from qlasskit.qcircuit import gates
+    from qlasskit.qcircuit.exporter_qasm import QasmExporter
+    nmax, = a
+    kinds = []
+    for nm, cls in inspect.getmembers(gates, inspect.isclass):
+        if not issubclass(cls, gates.QGate) or cls in (gates.QGate, gates.NopGate, gates.QControlledGate):
+            continue
+        if cls is gates.MCX:
+            kinds += [(f"MCX{k}", (lambda k=k: gates.MCX(k)), k + 1) for k in (2, 3, 5)]
+        elif cls is gates.MCtrl:
+            kinds += [(f"MCtrl{g.__name__}{k}", (lambda g=g, k=k: gates.MCtrl(g(), k)), k + 1) for g in (gates.Z, gates.X) for k in (2, 4)]
+        else:
+            g0 = cls()
+            kinds.append((nm, cls, 0 if g0.is_nop() else g0.n_qubits))
+    seqs = [[k] for k in kinds] + [[a_, b_] for a_ in kinds[::3] for b_ in kinds[1::4]] + [[kinds[i], kinds[-1 - i], kinds[i]] for i in range(0, len(kinds), 2)]
+    out = []
+    for seq in seqs:
+        for version in (2, 3):
+            for mode in ("circuit", "gate"):
+                label = " ".join(k for k, _, _ in seq)
+                name = f"C13.qasm.v{version}.{mode}.body-parametric[{label}; every wire assignment, every naming]"
+                base = dict(strength="bounded", backend="opaque-tokens (parametric in wires and names; bounded in gate kinds and list length)")
+                nq = max([ar for _, _, ar in seq] + [1]) + 1
+                wires = [_Wire(i) for i in range(nq)]
+                keys = {id(w): _Tok(f"<K{i}>") for i, w in enumerate(wires)}
+                formal = [_Tok(f"<K{i}>") for i in range(nq)]
+
+                class Circ:
+                    pass
+                qc = Circ()
+                qc.name = "circ"
+                qc.num_qubits = nq
+                glist, want = [], []
+                for j, (k, ctor, ar) in enumerate(seq):
+                    g = ctor()
+                    ws = [wires[(j + t * 2 + 1) % nq] for t in range(ar)] if ar < nq else wires[:ar]
+                    ws = list(dict.fromkeys(map(id, ws)))
+                    ws = [w for i_ in ws for w in wires if id(w) == i_]
+                    if len(ws) != ar:
+                        ws = wires[:ar]
+                    glist.append((g, ws, None))
+                    if not g.is_nop():
+                        want.append("\t" + g.name.lower() + " " + " ".join(str.__str__(keys[id(w)]) for w in ws) + "\n")
+                qc.gates = glist
+
+                def gk(x, wires=wires, keys=keys, formal=formal):
+                    if isinstance(x, _Wire):
+                        return keys[id(x)]
+                    if type(x) is int and 0 <= x < len(formal):
+                        return formal[x]
+                    raise AssertionError(f"get_key_by_index called with {type(x).__name__}")
+                qc.get_key_by_index = gk
+                try:
+                    text = QasmExporter(version=version).export(qc, mode)
+                    m = re.search(r"\{\n(.*?)\}\n", text, re.S)
+                    body = m.group(1) if m else None
+                    why = None if body == "".join(want) else f"body {body!r} is not {''.join(want)!r}"
+                except AssertionError as ex:
+                    # value-dependent code is not wrong by itself: the enumerated layer (job_qasm, every wire permutation) decides it
+                    out.append(res(name, UNDECIDED, detail=f"not parametric, left to the enumerated layer: {ex}", **base))
+                    continue
+                except Exception as ex:  # noqa
+                    why, text = None, ""
+                    out.append(res(name, UNDECIDED, detail=f"the stand-in circuit is not enough for the exporter: {type(ex).__name__}: {ex}", **base))
+                    continue
+                r = res(name, PROVED if why is None else REFUTED, nontrivial=True, **base)
+                if why:
+                    # replay on a real QCircuit with the wire numbers behind the tokens and default names
+                    from qlasskit.qcircuit import QCircuit
+                    real = QCircuit(nq, name="circ")
+                    for g, ws, p in glist:
+                        real.append(g, [object.__getattribute__(w, "_i") for w in ws], p)
+                    try:
+                        rwhy, rtext = qasm_check(real, version, mode)
+                    except Exception as ex:  # noqa
+                        rwhy, rtext = f"raises {type(ex).__name__}: {ex}", ""
+                    if rwhy is None:
+                        out.append(res(name, UNDECIDED, detail=f"stand-in only ({why}); the real circuit exports correctly", **base))
+                        continue
+                    r.update(replayed=True, replay=dict(gates=" ".join(f"{g.name}{[object.__getattribute__(w, '_i') for w in ws]}" for g, ws, _ in glist), observed=rwhy,
+                                                        printed=rtext[:600], call=f"QasmExporter(version={version}).export(qc, '{mode}')"))
+                out.append(r)
+    return out
+
+
 def compiled_job(_):
     """compiled functions (aliased qubit names) through every exporter"""
     from qlasskit import qlassf
@@ -359,7 +484,7 @@ def run(tier, only=None):
     from qlasskit.qcircuit.exporter_sympy import SympyExporter
     from qlasskit.qcircuit import QCircuit
     rep = Report("C13", tier, "other", f"./check C13 --tier {tier}")
-    jobs = [(calibrate, None), (compiled_job, None)]
+    jobs = [(calibrate, None), (compiled_job, None), (job_qasm_param, (3,))]
     for nq in (3, 4):
         cs = circuits(tier, nq)
         if nq == 4:
